@@ -65,3 +65,16 @@ Definition c1p_decide (rows : matrix) (nc : nat) : bool :=
 Definition complement (M : matrix) : matrix := map (map negb) M.
 Definition transpose (nc : nat) (M : matrix) : matrix :=
   map (fun j => map (fun r => pick r j) M) (seq 0 nc).
+
+(* submatrix certificate for a negative verdict: the rows with indices ridx restricted to the distinct columns
+   cols form a matrix without the consecutive-ones property (then the whole matrix has not got it either:
+   Proofs/C1P.v c1p_core_refuted_sound) *)
+Definition select_cols (cols : list nat) (row : list bool) : list bool := map (pick row) cols.
+Fixpoint nodupb (l : list nat) : bool :=
+  match l with
+  | [] => true
+  | x :: t => negb (memn x t) && nodupb t
+  end.
+Definition c1p_core_refuted (rows : matrix) (nc : nat) (ridx cols : list nat) : bool :=
+  nodupb cols && forallb (fun j => j <? nc) cols && forallb (fun i => i <? length rows) ridx &&
+  negb (c1p_decide (map (select_cols cols) (map (fun i => nth i rows []) ridx)) (length cols)).
